@@ -19,6 +19,47 @@ var generators = map[string]func(r *gen.Rand, o *gen.Out) (runCfg, []string){
 	"srcack":   func(r *gen.Rand, o *gen.Out) (runCfg, []string) { return genRun(r, o, "ack") },
 	"srccrash": func(r *gen.Rand, o *gen.Out) (runCfg, []string) { return genRun(r, o, "crash") },
 	"srcstop":  func(r *gen.Rand, o *gen.Out) (runCfg, []string) { return genRun(r, o, "stop") },
+	"srcnode":  genNode,
+}
+
+// genNode: healthy runs of one connector behind a real v1 SourceNode: 1-3 runs separated by restarts,
+// each with 0-4 records (0 = the resumed run is idle), flush triggers in between, a graceful stop at
+// the end of every run. The stop must always complete.
+func genNode(r *gen.Rand, o *gen.Out) (runCfg, []string) {
+	cfg := runCfg{maxRetries: 3, node: true, bundleThr: []int{0, 0, 1, 2, 3}[r.Intn(5)]}
+	var ops []string
+	runs := r.Range(1, 3)
+	o.Count(fmt.Sprintf("node-runs=%d", runs))
+	for i := 0; i < runs; i++ {
+		k := r.Pick(3, 3, 2, 1, 1) // 0..4 records
+		if i > 0 && k == 0 {
+			o.Count("node-resumed-run-idle")
+		}
+		for k > 0 {
+			n := r.Range(1, k)
+			ops = append(ops, fmt.Sprintf("e%d", n))
+			k -= n
+			switch r.Pick(3, 2, 1, 2) {
+			case 0:
+				ops = append(ops, "q")
+			case 1:
+				ops = append(ops, "f")
+			case 2:
+				ops = append(ops, "k")
+			}
+		}
+		if r.Chance(2, 3) {
+			ops = append(ops, "q")
+		}
+		ops = append(ops, "G")
+		if r.Chance(1, 2) {
+			ops = append(ops, "W")
+		}
+		if i+1 < runs {
+			ops = append(ops, "X")
+		}
+	}
+	return cfg, ops
 }
 
 func genRun(r *gen.Rand, o *gen.Out, kind string) (runCfg, []string) {
@@ -126,6 +167,26 @@ func genRun(r *gen.Rand, o *gen.Out, kind string) (runCfg, []string) {
 			add("f")
 			add("q")
 		}
+	}
+	// read-side shape: the plugin hands out records, the run is stopped (Stop RPC, then Teardown), the
+	// connector is restarted from the store and stopped again, idle or after k records: Source.Stop must
+	// return the last position handed out in THAT run (empty when idle), never the resumed-from position
+	if kind == "stop" && !faults && r.Chance(1, 3) {
+		o.Count("shape=stop-position")
+		k := r.Range(1, 3)
+		ops = append([]string{fmt.Sprintf("e%d", k), fmt.Sprintf("a%d", k)}, ops...)
+		add("f")
+		add("q")
+		add("S")
+		add("T")
+		add("W")
+		add("X")
+		if r.Chance(1, 2) {
+			add(fmt.Sprintf("e%d", r.Range(1, 3)))
+		} else {
+			o.Count("shape=stop-position-idle")
+		}
+		add("S")
 	}
 	// slow-store shape (healthy: the store answers, late): a flush whose commit takes longer than the persister's
 	// debounce interval is in flight when newer acks arrive and the stop begins; Teardown's forced flush must
